@@ -31,6 +31,8 @@
 //! assert_eq!(decrypted, message.as_bytes());
 //! ```
 
+use zeroize::Zeroize;
+
 use crate::classic::crypto_secretbox_impl::*;
 use crate::constants::{
     CRYPTO_SECRETBOX_KEYBYTES, CRYPTO_SECRETBOX_MACBYTES, CRYPTO_SECRETBOX_NONCEBYTES,
@@ -83,7 +85,11 @@ pub fn crypto_secretbox_open_detached(
 ) -> Result<(), Error> {
     let c_len = ciphertext.len();
     message[..c_len].copy_from_slice(ciphertext);
-    crypto_secretbox_open_detached_inplace(message, mac, nonce, key)
+    crypto_secretbox_open_detached_inplace(message, mac, nonce, key).map_err(|err| {
+        // don't leave anything derived from the rejected ciphertext behind
+        message.zeroize();
+        err
+    })
 }
 
 /// Encrypts `message` with `nonce` and `key`.
